@@ -274,10 +274,8 @@ func buildPNG(c Case, variant int) Built {
 			if a.Size == "big" {
 				n = 5000 + 1000*variant
 			}
-			// keep the next chunk's 8-byte header inside one bufio window: header
-			// straddles are the business of ReaderStack/C08, not of this grammar
-			for (pos+12+n)%win > win-8 {
-				n++
+			if strings.HasPrefix(a.Size, "pad:") { // exact size: places what follows at a chosen offset
+				n, _ = strconv.Atoi(a.Size[4:])
 			}
 			add(gen.Chunk(ancTypes[(k+variant)%len(ancTypes)], gen.Payload(n, uint32(k), true)))
 		case "iCCP":
@@ -428,6 +426,8 @@ func Project(c Case, variant int, o *obs.Obs) Outcome {
 		out.ICC = json.RawMessage(`["none"]`)
 	case "err":
 		out.ICC = json.RawMessage(`["err"]`)
+	case "mutated-after-later-loads":
+		out.ICC = json.RawMessage(`["mutated-after-later-loads"]`)
 	case "data":
 		out.ICC = json.RawMessage(`["data",[-1]]`)
 		seen := map[string]bool{}
